@@ -29,7 +29,7 @@ NODE_TYPES = [
 DIM = 3
 
 
-def make_node(t, tensor_cls, mixed_layout: bool = False, dim: int = DIM):
+def make_node(t, tensor_cls, mixed_layout: bool = False, dim: int = DIM, idx: int = 0):
     f, c, d = t
     rank = f + c + d
     cov = list(range(f, f + c))
@@ -38,7 +38,7 @@ def make_node(t, tensor_cls, mixed_layout: bool = False, dim: int = DIM):
         # a (1,1) tensor stored contravariant-first: index TYPES are sets of positions, any layout is legal
         cov, con = list(range(f + d, rank)), list(range(f, f + d))
     return absint.Obj(__cls__=tensor_cls, rank=rank, free_indices=f, shape=tuple([2] * f + [dim] * (c + d)), _covariant_indices=set(cov),
-                      _contravariant_indices=set(con), array=absint.Arr(rank, "f"), tensor_shape=(c, d))
+                      _contravariant_indices=set(con), array=absint.Arr(rank, "f", tuple(("node", idx, ax) for ax in range(rank))), tensor_shape=(c, d))
 
 
 def expected(nodes: list, edges: list[tuple[int, int]], objs: list):
@@ -80,24 +80,70 @@ def expected(nodes: list, edges: list[tuple[int, int]], objs: list):
         for k in order:
             out += [find((k, ax)) for ax in unused[k][which]]
     n_cov = sum(len(unused[k][0]) for k in order)
-    return ("ok", order, find, out, fmax, n_cov)
+    return ("ok", order, find, out, fmax, n_cov, pairs)
+
+
+def _members(lab) -> frozenset:
+    """the (node, axis) pairs a provenance label stands for"""
+    if isinstance(lab, frozenset):
+        return lab
+    if isinstance(lab, tuple) and lab and lab[0] == "node":
+        return frozenset({(lab[1], lab[2])})
+    return frozenset()
+
+
+def _node_of(arr):
+    """the node an operand array belongs to (None when it is already the result of a contraction)"""
+    owners = {m[0] for lab in absint.as_array(arr).labels() for m in _members(lab)}
+    return next(iter(owners)) if len(owners) == 1 else None
 
 
 def run_diagram(prog: Program, diagram_cls, tensor_cls, objs: list, edges: list[tuple[int, int]]):
-    """interprets TensorDiagram(*edges).calculate(); returns the captures"""
-    captured: dict = {}
+    """interprets TensorDiagram(*edges).calculate(); the contraction calls (np.einsum, np.tensordot) and the final Tensor(...) are recorded"""
+    captured: dict = {"pairs": [], "n_operands": None, "shared_free": [], "operand_nodes": []}
 
     def einsum(*args, **kw):
         captured["einsum"] = args
-        ops = args[:-1]
-        out = args[-1]
-        return absint.Capture("einsum", args, kw, ndim=len(out))
+        ops = [(args[i], list(args[i + 1])) for i in range(0, len(args) - 1, 2)]
+        out = list(args[-1])
+        captured["n_operands"] = len(ops)
+        captured["operand_nodes"] += [_node_of(arr) for arr, _ in ops]
+        members: dict = {}
+        for arr, labs in ops:
+            arr = absint.as_array(arr)
+            if len(labs) != arr.ndim:
+                raise absint.Raised("ValueError")
+            for ax, lab in enumerate(labs):
+                members.setdefault(lab, []).append(_members(arr.labels()[ax]))
+        for lab, ms in members.items():
+            if lab not in out and len(ms) >= 2:
+                for i in range(len(ms) - 1):
+                    captured["pairs"].append((ms[i], ms[i + 1]))
+            elif lab in out and len(ms) >= 2:
+                captured["shared_free"].append(frozenset().union(*ms))
+        return absint.Arr(len(out), "f", tuple(frozenset().union(*members.get(lab, [frozenset()])) for lab in out))
+
+    def tensordot(a, b, axes=2):
+        a, b = absint.as_array(a), absint.as_array(b)
+        if isinstance(axes, int):
+            ax_a, ax_b = list(range(a.ndim - axes, a.ndim)), list(range(axes))
+        else:
+            ax_a, ax_b = axes
+            ax_a = [ax_a] if isinstance(ax_a, int) else list(ax_a)
+            ax_b = [ax_b] if isinstance(ax_b, int) else list(ax_b)
+        if len(ax_a) != len(ax_b):
+            raise absint.Raised("ValueError")
+        captured["operand_nodes"] += [_node_of(a), _node_of(b)]
+        for i, j in zip(ax_a, ax_b):
+            captured["pairs"].append((_members(a.labels()[i % a.ndim]), _members(b.labels()[j % b.ndim])))
+        rest = [a.labels()[i] for i in range(a.ndim) if i not in [x % a.ndim for x in ax_a]] + [b.labels()[j] for j in range(b.ndim) if j not in [x % b.ndim for x in ax_b]]
+        return absint.Arr(len(rest), "f", tuple(_members(x) for x in rest))
 
     def tensor_ctor(args, kwargs):
         captured["tensor"] = (args, kwargs)
         return absint.Capture("Tensor", tuple(args), kwargs)
 
-    it = absint.Interp(prog, constructors={tensor_cls.qualname: tensor_ctor}, np_extra={"einsum": einsum})
+    it = absint.Interp(prog, constructors={tensor_cls.qualname: tensor_ctor}, np_extra={"einsum": einsum, "tensordot": tensordot})
     init = prog.lookup(diagram_cls, "__init__")
     calc = prog.lookup(diagram_cls, "calculate")
     me = absint.Obj(__cls__=diagram_cls)
@@ -107,42 +153,49 @@ def run_diagram(prog: Program, diagram_cls, tensor_cls, objs: list, edges: list[
 
 
 def compare(exp, captured, objs) -> str | None:
-    """None when the recorded einsum is the expected contraction, else a description of the difference"""
-    _ok, order, find, out, n_free, n_cov = exp
-    if "einsum" not in captured:
-        return "np.einsum is not called"
-    args = captured["einsum"]
-    operands, out_labels = args[:-1], list(args[-1])
-    if len(operands) != 2 * len(order):
-        return f"{len(operands) // 2} operands for {len(order)} nodes"
-    # labels used by the code -> our classes
-    code_to_class: dict = {}
-    class_to_code: dict = {}
-    for pos, k in enumerate(order):
-        arr, labels = operands[2 * pos], list(operands[2 * pos + 1])
-        if arr is not objs[k].array:
-            return f"operand {pos} is not the array of node {pos}"
-        if len(labels) != objs[k].rank:
-            return f"node {pos} of rank {objs[k].rank} gets {len(labels)} subscripts"
-        for ax, lab in enumerate(labels):
-            cl = find((k, ax))
-            if code_to_class.setdefault(lab, cl) != cl:
-                return f"axis {ax} of node {pos} shares a subscript with an axis it is not contracted / broadcast with"
-            if class_to_code.setdefault(cl, lab) != lab:
-                return f"axis {ax} of node {pos} does not share the subscript of the axis it is paired with"
-    want = [class_to_code.get(cl) for cl in out]
-    if want != out_labels:
-        return f"result subscripts {out_labels}, expected {want} (collection axes, uncontracted covariant indices in node order, then contravariant)"
+    """None when the recorded contraction is the expected one, else a description of the difference"""
+    _ok, order, find, out, n_free, n_cov, pairs = exp
     if "tensor" not in captured:
         return "the result is not wrapped in a Tensor"
+    if "einsum" in captured and captured["n_operands"] != len(order):
+        return f"{captured['n_operands']} operands for {len(order)} nodes"
     targs, tkw = captured["tensor"]
+    res = targs[0] if targs else None
+    if not isinstance(res, absint.Arr) or res.prov is None:
+        return "the array handed to the result Tensor was not produced by a recorded contraction"
+    # contracted pairs
+    want_pairs = {frozenset({a_, b_}) for a_, b_ in pairs}
+    got_pairs = set()
+    for ma, mb in captured["pairs"]:
+        if len(ma) != 1 or len(mb) != 1:
+            return "an axis that is already the result of a contraction is contracted again"
+        got_pairs.add(frozenset({next(iter(ma)), next(iter(mb))}))
+    if got_pairs != want_pairs:
+        missing = sorted(tuple(sorted(p)) for p in want_pairs - got_pairs)
+        extra = sorted(tuple(sorted(p)) for p in got_pairs - want_pairs)
+        return f"contracted index pairs (node, axis) differ: missing {missing[:2]}, unexpected {extra[:2]}"
+    # result axes: every axis must stand for the class the statement puts at that position
+    classes: dict = {}
+    for k in order:
+        for ax in range(objs[k].rank):
+            classes.setdefault(find((k, ax)), set()).add((k, ax))
+    if len(res.prov) != len(out):
+        return f"the result has {len(res.prov)} axes, expected {len(out)}"
+    for i, (lab, cl) in enumerate(zip(res.prov, out)):
+        got = _members(lab)
+        want = classes.get(cl, set())
+        if not got or not got <= want or (i < n_free and got != want):
+            return (f"result axis {i} stands for {sorted(got)}, expected {sorted(want)} (collection axes, uncontracted covariant indices in node order, "
+                    f"then contravariant)")
     cov = tkw.get("covariant")
     cov = list(cov) if cov is not None and not isinstance(cov, bool) else cov
     rank = tkw.get("tensor_rank")
     if cov != list(range(n_cov)):
         return f"result constructed with covariant={cov}, expected the first {n_cov} tensor indices"
-    if rank != len(out) - n_free:
+    if rank is not None and rank != len(out) - n_free:
         return f"result constructed with tensor_rank={rank}, expected {len(out) - n_free}"
+    if rank is None and n_free:
+        return "result constructed without tensor_rank although there are collection axes"
     return None
 
 
@@ -189,7 +242,7 @@ def rule_E14(run: Run, prog: Program) -> int:
             if mixed and not any(t[1] and t[2] for t in types):
                 continue
             n += 1
-            objs = [make_node(t, tcls, mixed) for t in types]
+            objs = [make_node(t, tcls, mixed, idx=k_) for k_, t in enumerate(types)]
             exp = expected(objs, list(edges), objs)
             desc = f"nodes {list(types)}{' (contravariant index stored first)' if mixed else ''}, edges {list(edges)}"
             try:
@@ -211,7 +264,7 @@ def rule_E14(run: Run, prog: Program) -> int:
                 continue
             n_ok += 1
             if len(samples_) < 6 and n_ok % 977 == 1:
-                samples_.append(f"{desc}: recorded np.einsum subscripts {_canonical(captured['einsum'])}")
+                samples_.append(f"{desc}: contracted (node, axis) pairs {sorted(tuple(sorted(next(iter(m)) for m in p)) for p in captured['pairs'])}")
             diff = compare(exp, captured, objs)
             if diff:
                 seen_nodes: set = set()
@@ -220,7 +273,8 @@ def rule_E14(run: Run, prog: Program) -> int:
                     if a == b and a not in seen_nodes:
                         first_mention_loop = True
                     seen_nodes |= {a, b}
-                twice = diff.startswith(f"{len(set(x for e_ in edges for x in e_)) + 1} operands for")
+                owners = [x for x in captured.get("operand_nodes", []) if x is not None]
+                twice = len(owners) > len(set(owners))  # one node object is an operand of the contraction more than once
                 kind = ("edge from a node to itself as the first mention of that node: the node is added twice" if first_mention_loop and twice else
                         "edge from a node to itself as the first mention of that node" if first_mention_loop else
                         "edge from a node to itself" if any(a == b for a, b in edges) else ("three nodes" if len(types) == 3 else "two nodes"))
@@ -228,7 +282,7 @@ def rule_E14(run: Run, prog: Program) -> int:
     # dimension mismatch raises
     for ta, tb in [((0, 1, 0), (0, 0, 1)), ((1, 1, 1), (0, 0, 2))]:
         n += 1
-        objs = [make_node(ta, tcls), make_node(tb, tcls, dim=DIM + 1)]
+        objs = [make_node(ta, tcls, idx=0), make_node(tb, tcls, dim=DIM + 1, idx=1)]
         try:
             run_diagram(prog, dcls, tcls, objs, [(0, 1)])
             wrong.setdefault("error clause", []).append(f"nodes {ta} (dimension {DIM}) and {tb} (dimension {DIM + 1}): no error, C05 requires TensorComputationError")
@@ -385,7 +439,8 @@ def rule_action(run: Run, prog: Program) -> int:
             m_arr = absint.Arr(tf + 2, "f", tuple(("M", i) for i in range(tf + 2)))
             t = absint.Obj(__cls__=trafo_coll if tf and trafo_coll is not None else trafo, array=m_arr, _covariant_indices={tf}, _contravariant_indices={tf + 1})
             inv_arrays: list = []
-            captured: dict = {}
+            captured: dict = {"pairs": [], "calls": []}
+            occurrence = [0]
 
             def inv_override(args, kwargs):
                 a = absint.as_array(args[0])
@@ -393,30 +448,73 @@ def rule_action(run: Run, prog: Program) -> int:
                 inv_arrays.append(out)
                 return out
 
-            def einsum(*args, **kw):
-                captured["args"] = args
-                out = args[-1]
-                # provenance of the result: a label that belongs to an axis of x keeps it; the free label of a matrix copy stands for the axis of x it is contracted with
-                ops = [(args[i], list(args[i + 1])) for i in range(0, len(args) - 1, 2)]
-                owner: dict = {}
-                xop = next(((a, l) for a, l in ops if isinstance(a, absint.Arr) and a.prov and a.prov[0][0] == "x"), None)
-                if xop is None:
-                    raise absint.Unsupported("x is not an operand of the einsum")
-                xl = xop[1]
-                for ax, lab in enumerate(xl):
-                    owner[lab] = ("x", ax)
-                for a, l in ops:
-                    if isinstance(a, absint.Arr) and a.prov and a.prov[0][0] in ("M", "Minv"):
-                        tensor_axes = l[-2:]
-                        hit = [lab for lab in tensor_axes if lab in xl]
-                        free = [lab for lab in tensor_axes if lab not in xl]
-                        if len(hit) == 1 and len(free) == 1:
-                            owner.setdefault(free[0], ("x", xl.index(hit[0])))
-                        for ax, lab in enumerate(l[:-2]):  # collection axes of a transformation collection
-                            owner.setdefault(lab, "new")
-                return absint.Arr(len(out), "f", tuple(owner.get(lab, "new") for lab in out))
+            def tagged(arr) -> list:
+                """the axis labels of an operand; every use of the matrix / the inverse in a contraction is a copy of its own"""
+                labs = list(absint.as_array(arr).labels())
+                if labs and all(isinstance(l_, tuple) and len(l_) == 2 and l_[0] in ("M", "Minv") for l_ in labs):
+                    occurrence[0] += 1
+                    return [(l_[0], occurrence[0], l_[1]) for l_ in labs]
+                return labs
 
-            it = absint.Interp(prog, np_extra={"einsum": einsum}, max_steps=60000, max_depth=14)
+            def merged(labels_: list):
+                """the label of a broadcast axis: the axis of x when x takes part"""
+                real = [l_ for l_ in labels_ if l_ is not None]
+                for l_ in real:
+                    if isinstance(l_, tuple) and l_[0] == "x":
+                        return l_
+                return real[0] if real else None
+
+            def einsum(*args, **kw):
+                ops = [(tagged(args[i]), list(args[i + 1])) for i in range(0, len(args) - 1, 2)]
+                out = list(args[-1])
+                captured["calls"].append("einsum")
+                members: dict = {}
+                for labs, subs in ops:
+                    if len(labs) != len(subs):
+                        raise absint.Raised("ValueError")
+                    for lab, sub in zip(labs, subs):
+                        members.setdefault(sub, []).append(lab)
+                for sub, ms in members.items():
+                    if sub not in out:
+                        for i in range(len(ms) - 1):
+                            captured["pairs"].append((ms[i], ms[i + 1]))
+                return absint.Arr(len(out), "f", tuple(merged(members.get(sub, [])) for sub in out))
+
+            def np_matmul(a, b, out=None, **kw):
+                la, lb = tagged(a), tagged(b)
+                captured["calls"].append("matmul")
+                if not la or not lb:
+                    raise absint.Raised("ValueError")
+                ka = la[-1]
+                kb = lb[-2] if len(lb) >= 2 else lb[0]
+                captured["pairs"].append((ka, kb))
+                batch_a, batch_b = (la[:-2] if len(la) >= 2 else []), (lb[:-2] if len(lb) >= 2 else [])
+                nb = max(len(batch_a), len(batch_b))
+                batch = []
+                for i in range(nb):
+                    xa = batch_a[i - (nb - len(batch_a))] if i >= nb - len(batch_a) else None
+                    xb = batch_b[i - (nb - len(batch_b))] if i >= nb - len(batch_b) else None
+                    batch.append(merged([xa, xb]))
+                tail = ([la[-2]] if len(la) >= 2 else []) + ([lb[-1]] if len(lb) >= 2 else [])
+                res = batch + tail
+                return absint.Arr(len(res), "f", tuple(res))
+
+            def np_tensordot(a, b, axes=2):
+                la, lb = tagged(a), tagged(b)
+                captured["calls"].append("tensordot")
+                if isinstance(axes, int):
+                    ax_a, ax_b = list(range(len(la) - axes, len(la))), list(range(axes))
+                else:
+                    ax_a, ax_b = axes
+                    ax_a = [ax_a] if isinstance(ax_a, int) else list(ax_a)
+                    ax_b = [ax_b] if isinstance(ax_b, int) else list(ax_b)
+                ax_a, ax_b = [i % len(la) for i in ax_a], [j % len(lb) for j in ax_b]
+                for i, j in zip(ax_a, ax_b):
+                    captured["pairs"].append((la[i], lb[j]))
+                res = [l_ for i, l_ in enumerate(la) if i not in ax_a] + [l_ for j, l_ in enumerate(lb) if j not in ax_b]
+                return absint.Arr(len(res), "f", tuple(res))
+
+            it = absint.Interp(prog, np_extra={"einsum": einsum, "matmul": np_matmul, "tensordot": np_tensordot}, max_steps=60000, max_depth=14)
             it.function_overrides[inv_fn.qualname] = inv_override
             what = f"x with {f} collection axes and index types {types!r} under a {'collection of transformations' if tf else 'transformation'}"
             try:
@@ -429,48 +527,66 @@ def rule_action(run: Run, prog: Program) -> int:
                 continue
             n_ok += 1
             problems = []
-            args = captured.get("args")
-            if args is None:
-                problems.append("no einsum is issued")
-            else:
-                ops = [(args[i], list(args[i + 1])) for i in range(0, len(args) - 1, 2)]
-                xl = next(l for a, l in ops if isinstance(a, absint.Arr) and a.prov and a.prov[0][0] == "x")
-                used_m = {ax: 0 for ax in cov}
-                used_i = {ax: 0 for ax in con}
-                for a, l in ops:
-                    if not (isinstance(a, absint.Arr) and a.prov):
-                        continue
-                    kind = a.prov[0][0]
-                    if kind == "M":
-                        # matrix: its SECOND tensor index must be the one shared with a covariant axis of x
-                        if l[-1] in xl and xl.index(l[-1]) in used_m and l[-2] not in xl:
-                            used_m[xl.index(l[-1])] += 1
-                        else:
-                            problems.append("a copy of the matrix is not contracted on its second index with a covariant index of x")
-                    elif kind == "Minv":
-                        if l[-2] in xl and xl.index(l[-2]) in used_i and l[-1] not in xl:
-                            used_i[xl.index(l[-2])] += 1
-                        else:
-                            problems.append("a copy of the inverse is not contracted on its first index with a contravariant index of x")
-                if any(v != 1 for v in used_m.values()):
-                    problems.append(f"covariant indices of x acted on {sorted(used_m.values())} times each, expected once")
-                if any(v != 1 for v in used_i.values()):
-                    problems.append(f"contravariant indices of x acted on {sorted(used_i.values())} times each, expected once")
+            first_ax, second_ax = tf, tf + 1  # the two tensor indices of the matrix (after the collection axes of a collection)
+            acted: dict = {}  # axis of x -> the matrix copy it is contracted with (kind, occurrence, axis of the copy)
+            if not captured["calls"]:
+                problems.append("no contraction is issued")
+            for la_, lb_ in captured["pairs"]:
+                xs = [l_ for l_ in (la_, lb_) if isinstance(l_, tuple) and l_[0] == "x"]
+                ms = [l_ for l_ in (la_, lb_) if isinstance(l_, tuple) and l_[0] in ("M", "Minv") and len(l_) == 3]
+                if len(xs) != 1 or len(ms) != 1:
+                    problems.append("a contraction that does not pair an index of x with an index of a copy of the matrix or of the inverse")
+                    continue
+                xax, (kind, occ_, max_) = xs[0][1], ms[0]
+                if xax in acted:
+                    problems.append(f"index {xax} of x is acted on more than once")
+                acted[xax] = (kind, occ_, max_)
+                if xax in cov and not (kind == "M" and max_ == second_ax):
+                    problems.append(f"a covariant index of x is contracted with the {'first' if max_ == first_ax else 'second'} index of "
+                                    f"{'the matrix' if kind == 'M' else 'the INVERSE'}; C06/C07: with the second index of the matrix")
+                elif xax in con and not (kind == "Minv" and max_ == first_ax):
+                    problems.append(f"a contravariant index of x is contracted with the {'first' if max_ == first_ax else 'second'} index of "
+                                    f"{'the MATRIX' if kind == 'M' else 'the inverse'}; C06/C07: with the first index of the inverse")
+                elif xax not in cov and xax not in con:
+                    problems.append("a collection axis of x is contracted")
+            missing = [ax for ax in cov + con if ax not in acted]
+            if missing and captured["calls"]:
+                problems.append(f"tensor index(es) {missing} of x are not acted on")
+            by_copy = {(k_, o_): xax for xax, (k_, o_, _m) in acted.items()}
             if isinstance(res, absint.Obj) and isinstance(res.__dict__.get("array"), absint.Arr) and res.__dict__["array"].prov is not None:
                 arr = res.__dict__["array"]
                 rc, rn = res.__dict__.get("_covariant_indices", set()), res.__dict__.get("_contravariant_indices", set())
+                if arr.ndim != rank + (tf if f == 0 else max(tf - f, 0)):
+                    problems.append(f"the result has {arr.ndim} axes")
                 for i, lab in enumerate(arr.prov):
                     got = "covariant" if i in rc else ("contravariant" if i in rn else "collection")
-                    want = "collection" if lab == "new" else ("covariant" if lab[1] in cov else ("contravariant" if lab[1] in con else "collection"))
+                    stands = None
+                    if isinstance(lab, tuple) and lab[0] == "x":
+                        stands = lab[1]
+                    elif isinstance(lab, tuple) and lab[0] in ("M", "Minv") and len(lab) == 3 and lab[2] >= tf:
+                        stands = by_copy.get((lab[0], lab[1]))
+                        if stands is None:
+                            problems.append(f"axis {i} of the result is a free index of a matrix copy that is not contracted with x")
+                            break
+                    want = "collection" if stands is None else ("covariant" if stands in cov else ("contravariant" if stands in con else "collection"))
                     if got != want:
-                        problems.append(f"axis {i} of the result stands for {'a new axis' if lab == 'new' else 'axis ' + str(lab[1]) + ' of x'} ({want}) but is typed {got}")
+                        problems.append(f"axis {i} of the result stands for {'a new axis' if stands is None else 'axis ' + str(stands) + ' of x'} ({want}) but is typed {got}")
                         break
+                # the tensor indices keep their order
+                order = []
+                for lab in arr.prov:
+                    if isinstance(lab, tuple) and lab[0] in ("M", "Minv") and len(lab) == 3 and lab[2] >= tf:
+                        order.append(by_copy.get((lab[0], lab[1])))
+                    elif isinstance(lab, tuple) and lab[0] == "x" and (lab[1] in cov or lab[1] in con):
+                        order.append(lab[1])
+                if not problems and order != sorted(order):
+                    problems.append(f"the transformed indices come back in the order {order} of the axes of x")
             else:
                 problems.append("the result is not a tensor with a tracked array")
             if problems:
                 wrong.append(f"{what}: " + "; ".join(dict.fromkeys(problems)))
             elif len(samples) < 4 and n_ok % 11 == 1:
-                samples.append(f"{what}: einsum {_canonical(captured['args'])}")
+                samples.append(f"{what}: {'+'.join(captured['calls'])}, x index -> (matrix copy, its index): {sorted((k_, v_[0], v_[2] - tf) for k_, v_ in acted.items())}")
     if not hasattr(run, "enumerated"):
         run.enumerated, run.case_samples = {}, {}
     run.enumerated["E17"] = n_ok
